@@ -83,6 +83,9 @@ func matchCallee(name, pattern string) bool {
 	if name == pattern {
 		return true
 	}
+	if nr, pr := strings.HasPrefix(name, "recv:"), strings.HasPrefix(pattern, "recv:"); nr || pr {
+		return nr && pr && matchCallee(name[5:], pattern[5:])
+	}
 	if strings.HasPrefix(name, "closure:") {
 		return false
 	}
@@ -649,6 +652,20 @@ func (e *Enc) applyContract(ci ssa.CallInstruction, fc *FuncContract, fn *ssa.Fu
 		e.sc.Assert(App(SBool, ">=", na, oldAlloc))
 		e.set(e.cur, "alloc", na)
 	}
+	// scratch ghosts of the callee (reset at its entry, written by nobody else) are not part of anyone's frame:
+	// they have an arbitrary value for the caller afterwards
+	if fc.Target != "" {
+		var scratch []string
+		for g := range e.prog.cs.Ghosts {
+			if e.prog.scratchGhostOwner(g) == fc.PkgPath+"."+fc.Target {
+				if _, used := e.heapSorts["G$"+g]; used {
+					scratch = append(scratch, "G$"+g)
+				}
+			}
+		}
+		sort.Strings(scratch)
+		e.havocNames(e.cur, scratch)
+	}
 	// 3. results
 	var results []Term
 	if sig != nil {
@@ -1162,7 +1179,7 @@ func (e *Enc) checkFrame(exit *State, se *specEnv) error {
 			continue
 		}
 		if strings.HasPrefix(n, "G$") {
-			if n == "G$recovered" {
+			if n == "G$recovered" || e.prog.scratchGhostOwner(n[2:]) != "" {
 				continue
 			}
 			e.oblige("FRAME", sanitize(n), nil, Eq(before, after), "ghost variable "+n[2:]+" is not in the modifies clause", e.fn.Pos())
@@ -1433,6 +1450,37 @@ func (e *Enc) recvClosed(chv ssa.Value, guard Term) {
 // (nothing is ever sent on it: site frame; close/receive happens-before: trusted Go semantics).
 func (e *Enc) onChanRecv(x *ssa.UnOp) {
 	e.recvClosed(x.X, e.curGuard)
+	if err := e.recvHooks(x.X); err != nil {
+		panic(unsupportedErr(err.Error()))
+	}
+}
+
+// recvHooks: ghost hooks anchored at a completed receive, named after the call that produced the channel:
+// `ghost after call recv:time.After : ...` runs when a receive on the result of a call to time.After completed;
+// arg<i> are the arguments of that producing call. The anchor follows the value, not the position of the receive,
+// so it survives moving the receive into a helper or another select.
+func (e *Enc) recvHooks(ch ssa.Value) error {
+	call, ok := ch.(*ssa.Call)
+	if !ok || e.fc == nil {
+		return nil
+	}
+	name := "recv:" + e.callName(call.Common())
+	has := false
+	for _, h := range e.fc.Hooks {
+		has = has || matchCallee(name, h.Callee)
+	}
+	if !has {
+		return nil
+	}
+	var args []Term
+	for _, a := range call.Common().Args {
+		if t, ok := e.vals[a]; ok {
+			args = append(args, t)
+		} else {
+			args = append(args, e.val(a))
+		}
+	}
+	return e.runHooksNamed("after", name, -1, call, args, nil)
 }
 
 // onSelect: ghost hooks anchored at select arms: `ghost after call select:arm<k> : ...` runs when arm k was chosen.
@@ -1444,6 +1492,15 @@ func (e *Enc) onSelect(x *ssa.Select, idx Term) {
 	}
 	if e.fc == nil {
 		return
+	}
+	for k, st := range x.States {
+		if st.Dir != types.RecvOnly {
+			continue
+		}
+		ch := st.Chan
+		if err := e.conditionally(Eq(idx, IntLit(int64(k))), func() error { return e.recvHooks(ch) }); err != nil {
+			panic(unsupportedErr(err.Error()))
+		}
 	}
 	for k := range x.States {
 		k := k
